@@ -24,6 +24,7 @@ import CatVerif.Proofs.Args
 import CatVerif.Properties.C02
 import CatVerif.Proofs.Steps.Collect
 import CatVerif.Proofs.Steps.Loops
+import CatVerif.Proofs.Text
 namespace Cat
 open St
 
@@ -282,5 +283,40 @@ theorem C06_counters_unbounded :
     Gen.width_desc_unsolicited_buf_size = 64 ∧
     Gen.width_obj_length = 64 ∧
     Gen.width_obj_position = 64 := by decide
+
+/-- **exact text, first round, handler-only READ** (partial: commands whose variables are formatted first go through
+`format_read_args`, where only "the cursor stands on a NUL inside the region" is proved): when READ of a command without
+readable variables is started, the next call of the command machine invokes its read handler with exactly the command's
+name followed by `=` as NUL-terminated text, `data_size` = its length, `max_data_size` = the capacity of the command region -/
+theorem C06_first_read_text_partial (D : Desc) (s : St) (i : SvcIn) (hb : D.cmdCap ≤ s.buf.length) (hc : s.cmd.isSome = true)
+    (hv : varsAccessible (D.cmdD s.cmd) .ro = false) (hr : (D.cmdD s.cmd).hasRead = true)
+    (hfit : (D.cmdD s.cmd).name.length + 1 < D.cmdCap) (hn : ∀ b ∈ (D.cmdD s.cmd).name, b ≠ 0) :
+    tr .cbC (commandService D (startFormatRead D s .cmd) i).1.log =
+      tr .cbC (startFormatRead D s .cmd).log ++
+        [.handler .cmd .read (s.cmd.getD 0) ((D.cmdD s.cmd).name ++ [61]) true ((D.cmdD s.cmd).name.length + 1) D.cmdCap i.hc.ret] := by
+  obtain ⟨hst, htx, hcm, hbl⟩ := startFormatRead_text D s hb hc hv hr hfit
+  have hnn : ∀ b ∈ (D.cmdD s.cmd).name ++ [61], b ≠ 0 := by
+    intro b hb'
+    rcases List.mem_append.1 hb' with h | h
+    · exact hn b h
+    · simp at h; subst h; decide
+  have e := htx.cstr_eq hbl hnn
+  rw [C06_read_handler D _ i hst, e.1, e.2, hcm]
+  simp
+
+/-- the printing primitive appends (both the text and its terminator), so the text under the cursor grows by exactly the
+printed bytes -/
+theorem C06_print_appends {D : Desc} {s : St} {t : List Byte} (x : List Byte) (hb : D.cmdCap ≤ s.buf.length) (h : PreC D s t)
+    (ok : (printN D s .cmd x).2 = true) : TxtC D (printN D s .cmd x).1 (t ++ x) := (printN_txt x hb h ok).1
+
+/-- the premises of `C06_first_read_text_partial` are satisfiable: a command `+R` with a read handler and no variables, a
+16-byte shared buffer (command half 8 bytes), the command selected -/
+def exReadCmd : CmdD := ⟨[43, 82], none, false, true, false, false, none, false, false, false, false⟩
+def exReadDesc : Desc := ⟨[⟨none, [exReadCmd], false⟩], [], 16, none, 1, false⟩
+example : exReadDesc.cmdCap ≤ (List.replicate 16 (165 : Byte)).length ∧
+    varsAccessible (exReadDesc.cmdD (some 0)) .ro = false ∧ (exReadDesc.cmdD (some 0)).hasRead = true ∧
+    (exReadDesc.cmdD (some 0)).name.length + 1 < exReadDesc.cmdCap ∧ (∀ b ∈ (exReadDesc.cmdD (some 0)).name, b ≠ 0) ∧
+    (cstr exReadDesc (startFormatRead exReadDesc { ({} : St) with cmd := some 0, buf := List.replicate 16 165 } .cmd) .cmd)
+      = ([43, 82, 61], true) := by decide
 
 end Cat
